@@ -26,7 +26,7 @@ ASSUMPTIONS = ["subscribers are async callables that raise inside the coroutine 
                "change classification comes from the reference model fed the same bytes"]
 REQUIRED_OBS = ["must_verdicts", "must_not_verdicts", "repeat_frames", "raising_subscribers",
                 "zone_to_ac_forwarding", "unsubscribed_silent", "double_subscription",
-                "after_reinit", "single_field_changes"]
+                "after_reinit", "single_field_changes", "self_unsubscribed_in_callback"]
 SOAK = True   # also judged by the whole-run monitors of the soak sessions (vf/soak.py)
 BUDGET = {"quick": 100, "thorough": 1500}
 
@@ -96,8 +96,36 @@ def run_case(case):
                 if rnd.random() < 0.3:
                     s["attach"](s["sub"])
                     s["twice"] = True
+        def arm_one_shot(s):
+            # a "wait for the next update" helper: unsubscribes itself from inside its own
+            # callback, while the client is still going through its subscribers
+            def act():
+                s["detach"](s["sub"])
+                s.setdefault("pending", []).append("off")
+                obs["self_unsubscribed_in_callback"] = obs.get(
+                    "self_unsubscribed_in_callback", 0) + 1
+            s["sub"].action = act
+
+        def arm_subscribe_other(s):
+            others = [o for o in subs if o is not s and not o["on"] and o["kind"] == s["kind"]
+                      and o["ent"] == s["ent"]]
+            if not others:
+                return
+            o = others[0]
+
+            def act():
+                o["attach"](o["sub"])
+                o.setdefault("pending", []).append("on")
+                obs["subscribed_other_in_callback"] = obs.get(
+                    "subscribed_other_in_callback", 0) + 1
+            s["sub"].action = act
+
         last_raw = None
         for step in range(case["n"]):
+            if rnd.random() < 0.3:
+                cand = [x for x in subs if x["on"] and not x["twice"] and x["sub"].action is None]
+                if cand:
+                    (arm_one_shot if rnd.random() < 0.7 else arm_subscribe_other)(rnd.choice(cand))
             # subscribe / unsubscribe placements
             if rnd.random() < 0.25:
                 s = rnd.choice(subs)
@@ -132,6 +160,10 @@ def run_case(case):
             for s in subs:
                 name = s["sub"].name
                 got = calls.get(name, [])
+                if "on" in s.get("pending", ()):
+                    # subscribed from inside another callback during this very frame: being
+                    # called for it or not is both fine
+                    continue
                 rel = []
                 for ch in changes:
                     _, ck, cid, exposed, rec = ch
@@ -179,6 +211,11 @@ def run_case(case):
                                  "detail": dict(info, upper=upper)})
                 if s["sub"].raises and got:
                     obs["raising_subscribers"] = obs.get("raising_subscribers", 0) + 1
+            for s in subs:
+                # what was done from inside callbacks takes effect in the order it happened
+                for what in s.pop("pending", ()):
+                    s["on"] = what == "on"
+                    s["twice"] = False
             # the model itself must still be right (a raising subscriber must not derail it)
             dd = RM.diff(w.model.expected(), H.snapshot(at))
             if dd:
